@@ -174,11 +174,15 @@ func init() {
 		out := map[string]any{"outcome": "ok"}
 		if rs, err := s.Resolve(nil); err == nil {
 			out["resolve"] = "ok"
+			var vs []string
 			for _, v := range []any{nil, 1.0, "s", []any{1.0, "a"}, map[string]any{"a": 1.0}} {
-				safeValidate(rs, v)
+				vs = append(vs, safeValidate(rs, v))
 				w := v
-				applyOnce(rs, &w)
+				if applyOnce(rs, &w) == "panic" {
+					vs = append(vs, "apply-panic")
+				}
 			}
+			out["verdicts"] = vs
 		} else {
 			out["resolve"] = "error"
 		}
